@@ -64,6 +64,23 @@ class Check:
         if s not in self.assumptions:
             self.assumptions.append(s)
 
+    def borrow(self, module, src_pid, prog, ctx, select, new_rule, floor):
+        """evaluate another property's rule module and adopt the instances selected by `select(rule, key)` under `new_rule`.
+        Used where a clause of this property rests on a fact that another property's rule already decides (the same
+        source construct serves both); the instance is re-evaluated on the current tree on every run, not copied."""
+        from .facts import CannotDecide
+        sub = Check(src_pid, self.tier)
+        module.run(sub, prog, ctx)
+        n = 0
+        for (rule, k, okk, detail, where) in sub.instances:
+            if select(rule, k):
+                parts = k.split("|")
+                self.instances.append((new_rule, "|".join([new_rule] + parts[1:]), okk, "[%s %s] %s" % (src_pid, rule, detail), where))
+                n += 1
+        if n < floor:
+            raise CannotDecide("%s's rules selected for %s produced %d instance(s), expected at least %d" % (src_pid, new_rule, n, floor))
+        return n
+
     # ---- finishing
     def finish(self):
         known = load_known().get(self.pid, {})
